@@ -113,12 +113,12 @@ class Chipset(object):
             return "Error 0x{0:02X}: {1}".format(self.errno, self.strerr)
 
     def chipset_error(self, cause):
-        if cause is None:
-            errno = 0xff
-        elif type(cause) is int:
+        if type(cause) is int:
             errno = cause
-        else:
+        elif cause:
             errno = cause[0]
+        else:
+            errno = 0xff  # no status byte, neither None nor empty response
 
         strerr = self.ERR.get(errno, "Unknown error code")
         raise Chipset.Error(errno, strerr)
@@ -366,7 +366,7 @@ class Chipset(object):
         nf = (bool(passive_data) | bool(nfcid3) << 1 | bool(gi) << 2)
         data = bytearray([cm, br, nf]) + passive_data + nfcid3 + gi
         data = self.command(0x56, bytearray(data), timeout=3.0)
-        if data is None or data[0] != 0:
+        if not data or data[0] != 0:
             self.chipset_error(data)
         return data[2:]
 
@@ -384,7 +384,7 @@ class Chipset(object):
         nf = (bool(passive_data) | bool(nfcid3) << 1 | bool(gi) << 2)
         data = bytearray([cm, br, nf]) + passive_data + nfcid3 + gi
         data = self.command(0x46, data, timeout=3.0)
-        if data is None or data[0] != 0:
+        if not data or data[0] != 0:
             self.chipset_error(data)
         return data[2:]
 
@@ -399,20 +399,20 @@ class Chipset(object):
         flag = int(bool(nfcid3i)) | (int(bool(gi)) << 1)
         data = bytearray([1, flag]) + nfcid3i + gi
         data = self.command(0x50, data, timeout=1.5)
-        if data is None or data[0] != 0:
+        if not data or data[0] != 0:
             self.chipset_error(data)
         return data[1:]
 
     def in_psl(self, br_it, br_ti):
         data = bytearray([1, br_it, br_ti])
         data = self.command(0x4E, data, timeout=1.0)
-        if data is None or data[0] != 0:
+        if not data or data[0] != 0:
             self.chipset_error(data)
 
     def in_data_exchange(self, data, timeout, more=False):
         data = self.command(0x40, bytearray([int(more) << 6 | 0x01]) + data,
                             timeout)
-        if data is None or data[0] & 0x3f != 0:
+        if not data or data[0] & 0x3f != 0:
             self.chipset_error(data[0] & 0x3f if data else None)
         return data[1:], bool(data[0] & 0x40)
 
@@ -426,23 +426,23 @@ class Chipset(object):
 
     def tg_set_general_bytes(self, gb):
         data = self.command(0x92, gb, timeout=0.1)
-        if data is None or data[0] != 0:
+        if not data or data[0] != 0:
             self.chipset_error(data)
 
     def tg_get_data(self, timeout):
         data = self.command(0x86, b'', timeout)
-        if data is None or data[0] & 0x3f != 0:
+        if not data or data[0] & 0x3f != 0:
             self.chipset_error(data[0] & 0x3f if data else None)
         return data[1:], bool(data[0] & 0x40)
 
     def tg_set_data(self, data, timeout):
         data = self.command(0x8E, data, timeout)
-        if data is None or data[0] != 0:
+        if not data or data[0] != 0:
             self.chipset_error(data)
 
     def tg_set_meta_data(self, data, timeout):
         data = self.command(0x94, data, timeout)
-        if data is None or data[0] != 0:
+        if not data or data[0] != 0:
             self.chipset_error(data)
 
     def tg_get_initiator_command(self, timeout):
@@ -455,7 +455,7 @@ class Chipset(object):
 
     def tg_response_to_initiator(self, data):
         data = self.command(0x90, data, timeout=1.0)
-        if data is None or data[0] != 0:
+        if not data or data[0] != 0:
             self.chipset_error(data)
 
     def tg_get_target_status(self):
